@@ -189,6 +189,18 @@ CLAIMED.update({
                   "their index work is NumPy's or the slicing kernels of C20.", design_ref="DESIGN.md sec. 3 C24"),
 })
 
+CLAIMED.update({
+ "C34": dict(text="The real da.arange / eye / tri / diag / diagonal / ones-zeros-full-empty are called with symbolic integer arguments (start, stop, sizes, chunk size, "
+                  "diagonal offset k, probe positions; step enumerated) and the real Array graph is interpreted with NumPy's definition of each block task: "
+                  "arange blocks are contiguous pieces of range(start, stop, step) whose element counts equal the lazy chunks and a symbolic probe lands in the "
+                  "block/offset the chunks say; eye/tri/diag: the block holding a symbolic probe (r, q) marks it iff NumPy's definition does; lazy chunks add "
+                  "up to the shape everywhere. diagonal, linspace, indices, meshgrid, fromfunction and the *_like variants are covered by solver-enumerated "
+                  "witnesses against NumPy only.",
+             note=_ENUM_NOTE + "tokenize stubbed in dask.array.creation/wrap for the symbolic run (hashing would concretise every argument); int/math/np shims; "
+                  "number of blocks concretised by normalize_chunks. Outside: fractional steps and linspace float arithmetic (1-ulp deviations observed and not "
+                  "asserted), chunks='auto', like=.", design_ref="DESIGN.md sec. 3 C34"),
+})
+
 NOT_APPLICABLE = {}
 
 _NA_DESIGN = {
